@@ -357,6 +357,34 @@ def whole_slot(p):
     return all(slots(t) == int(slots(t)) for t in p["tasks"])   # (milestones: 0)
 
 
+def double_edge_subuniverse(prop, rng, n, fails, record):
+    """the task and its container both depend on the same predecessor, with different options; the bound is the maximum
+    over BOTH edges (C04: every edge honoured; C07: the reference bound)"""
+    evals = 0
+    for k in range(n // 4):
+        e = [rng.choice(["2h", "5h", "13h"]) for _ in range(2)]
+        outer = rng.choice(["", " { gapduration 2h }", " { gapduration 5h }"])
+        inner = rng.choice(["", " { onstart }", " { gapduration 1h }"])
+        text = ('project prj "P" 2025-01-06 +3w { timezone "UTC" }\nresource r "r" {}\nresource q "q" {}\n'
+                f'task a "a" {{ effort {e[0]} allocate r }}\n'
+                f'task g "g" {{ depends a{outer}\n  task x "x" {{ effort {e[1]} allocate q depends a{inner} }}\n}}\n')
+        key = f"{prop}/double/{SEED}/{k}"
+        proj = run(text)
+        evals += 1
+        record(key, text)
+        d_ = dates(proj)
+        if not all(v[2] for v in d_.values()):
+            fails.append({"clause": f"{prop}:feasible-project-unscheduled", "key": key, "input": text, "detail": f"{[f for f, v in d_.items() if not v[2]]}"})
+            continue
+        gap_o = 2 if "2h" in outer else 5 if "5h" in outer else 0
+        b_outer = d_["a"][1] + dt.timedelta(hours=gap_o)
+        b_inner = d_["a"][0] if "onstart" in inner else d_["a"][1] + dt.timedelta(hours=1 if "1h" in inner else 0)
+        if d_["g.x"][0] < max(b_outer, b_inner):
+            fails.append({"clause": f"{prop}:both-edges", "key": key, "input": text,
+                          "detail": f"g.x starts {d_['g.x'][0]}; container edge asks for {b_outer}, own edge for {b_inner}"})
+    return evals
+
+
 # ---------------------------------------------------------------------------------------------------------------
 def main():
     prop = sys.argv[1]
@@ -474,12 +502,14 @@ def main():
                 alap_ = rng.random() < 0.3
                 if alap_:
                     onstart, opt = False, rng.choice(["", " { gapduration 2h }"])
+                late_a = rng.random() < 0.4                 # the predecessor is declared last and/or has a lower priority
+                a_txt = f'task a "a" {{ effort {e[0]} allocate r' + (" priority 100" if late_a and rng.random() < 0.5 else "") + ' }\n'
                 text = ('project prj "P" 2025-01-06 +3w { timezone "UTC"' + (" scheduling alap" if alap_ else "") + ' }\nresource r "r" {}\nresource q "q" {}\n'
-                        f'task a "a" {{ effort {e[0]} allocate r }}\n'
+                        + ("" if late_a else a_txt) +
                         f'task g "g" {{ ' + ("" if alap_ else f'start {gd.strftime("%Y-%m-%d")}') + (f' depends a{opt}' if on_container else "")
                         + f'\n  task x "x" {{ effort {e[1]} allocate q' + ("" if on_container else f' depends a{opt}') + ' }\n'
                         f'  task y "y" {{ effort {e[2]} allocate q }}\n}}\n'
-                        f'task z "z" {{ effort {e[3]} allocate r depends g }}\n')
+                        f'task z "z" {{ effort {e[3]} allocate r depends g }}\n' + (a_txt if late_a else ""))
                 key = f"C04/dated/{SEED}/{k}"
                 proj = run(text)
                 evals += 1
@@ -496,6 +526,8 @@ def main():
                         fails.append({"clause": "C04:container-start-bound", "key": key, "input": text, "detail": f"children start {d_['g.x'][0]}, {d_['g.y'][0]} before the container's start {gd}"})
                     if d_["z"][0] < d_["g"][1]:
                         fails.append({"clause": "C04:depends-on-container", "key": key, "input": text, "detail": f"z starts {d_['z'][0]} before g ends {d_['g'][1]}"})
+        if prop == "C04":
+            evals += double_edge_subuniverse(prop, rng, n, fails, record)
         if prop == "C03":
             # team sub-universe: two members of efficiency 1, whole-slot efforts (a final partial slot is the recorded
             # finding D2), optional task limit restricted to ONE member (a limit shared by the members is finding D17),
@@ -646,7 +678,51 @@ def main():
                         fails.append({"clause": "C11:blocked-task-scheduled", "key": key, "detail": f"{tid(p, i)}: {s_}..{e_}", "input": text})
                     if i not in blocked and sch and not (proj.attributes["start"] <= s_ <= e_):
                         fails.append({"clause": "C11:outside-horizon", "key": key, "detail": f"{tid(p, i)}: {s_}..{e_}", "input": text})
+        if prop == "C11":
+            # containers with a child that cannot be placed and keeps only one of its dates (an ALAP child with a deadline whose
+            # effort does not fit; an ASAP child in an ALAP container that runs out of the horizon)
+            for k in range(n // 6):
+                shape = rng.choice(["alap-child", "asap-child-in-alap"])
+                if shape == "alap-child":
+                    text = ('project prj "P" 2025-01-06 +2w { timezone "UTC" }\nresource r "r" {}\nresource q "q" {}\n'
+                            'task g "g" {\n  task ok "ok" { effort 5h allocate q }\n'
+                            f'  task late "late" {{ scheduling alap end 2025-01-0{rng.choice([6, 7])}-1{rng.choice([0, 2])}:00 effort {rng.choice([30, 60])}h allocate r }}\n}}\n')
+                else:
+                    text = ('project prj "P" 2025-01-06 +1w { timezone "UTC" scheduling alap }\nresource r "r" { limits { dailymax 1h } }\nresource q "q" {}\n'
+                            'task g "g" {\n  task ok "ok" { effort 5h allocate q }\n'
+                            f'  task slow "slow" {{ scheduling asap effort {rng.choice([30, 60])}h allocate r }}\n}}\n')
+                key = f"C11/partial/{SEED}/{k}"
+                try:
+                    proj = run(text)
+                    evals += 1
+                    record(key, text)
+                except Exception as e:  # noqa
+                    fails.append({"clause": "C11:exception", "key": key, "detail": f"{type(e).__name__}: {e}", "input": text})
         if prop == "C02":
+            # third sub-universe: several GLOBAL vacations declared in arbitrary order, resources working their own hours or a
+            # shift (for these the global vacations are checked in ResourceScenario.onShift only)
+            for k in range(n // 3):
+                days = rng.sample(range(1, 12), 3)
+                vac = "".join(f'vacation "H{i}" {(START + dt.timedelta(days=d)).strftime("%Y-%m-%d")} - {(START + dt.timedelta(days=d + 1)).strftime("%Y-%m-%d")}\n'
+                              for i, d in enumerate(days))
+                kind = rng.choice(["own", "shift", "default"])
+                rdef = {"own": 'resource r "r" { workinghours mon - fri 08:00 - 16:00 }\n',
+                        "shift": 'shift s1 "S" { workinghours mon - fri 08:00 - 16:00 }\nresource r "r" { workinghours s1 }\n',
+                        "default": 'resource r "r" {}\n'}[kind]
+                text = ('project prj "P" 2025-01-06 +4w { timezone "UTC" }\n' + vac + rdef +
+                        f'task a "a" {{ effort {rng.choice([30, 50, 70])}h allocate r }}\n')
+                key = f"C02/vac/{SEED}/{k}"
+                proj = run(text)
+                evals += 1
+                record(key, text)
+                off = {(START + dt.timedelta(days=d)).date() for d in days}
+                lo, hi = (9, 17) if kind == "default" else (8, 16)
+                for rid, slots in ledger(proj).items():
+                    for sl in slots:
+                        d_ = proj.idxToDate(sl)
+                        if d_.date() in off or d_.weekday() >= 5 or not (lo <= d_.hour < hi):
+                            fails.append({"clause": "C02:global-vacation", "key": key, "input": text, "detail": f"{rid} booked at {d_} (vacation days {sorted(off)})"})
+                            break
             # second sub-universe: resources in DST-observing zones working a 7-day shift across a transition
             import zoneinfo
             zones = [("Europe/London", "2025-03-24"), ("Europe/London", "2025-10-20"), ("America/New_York", "2025-03-03"),
@@ -689,6 +765,7 @@ def main():
             if got != want:
                 diff = {f: (got.get(f), want.get(f)) for f in set(got) | set(want) if got.get(f) != want.get(f)}
                 fails.append({"clause": "C07:reference-schedule", "key": key, "detail": str(diff)[:400], "input": text})
+        evals += double_edge_subuniverse(prop, rng, n, fails, record)
     elif prop == "C09":
         for k, p in enumerate(gen_projects(rng, n, containers=False)):
             base = dates(run(render(p)))
@@ -724,6 +801,24 @@ def main():
                 if b[f] != v:
                     fails.append({"clause": "C09:intruder-moved-task", "key": f"C09/gate/{SEED}/{k}", "detail": f"{f}: {v} -> {b[f]}", "input": text})
                     break
+        # third sub-universe: mixed scheduling directions: a high-priority ALAP task with a deadline and a lowest-priority ASAP
+        # intruder on the same resource
+        for k in range(n // 4):
+            e = [rng.choice(["5h", "8h", "13h"]) for _ in range(3)]
+            day = rng.choice([10, 11, 14])
+            dl = (START + dt.timedelta(days=day)).strftime("%Y-%m-%d")
+            base = ('project prj "P" 2025-01-06 +5w { timezone "UTC" }\nresource r "r" {}\n'
+                    f'task m "m" {{ effort {e[0]} allocate r }}\n'
+                    f'task h "h" {{ priority 900 scheduling alap end {dl} effort {e[1]} allocate r }}\n')
+            pin = (START + dt.timedelta(days=day - 1)).strftime("%Y-%m-%d")
+            text = base + f'task intruder "I" {{ priority 1 start {pin} effort {e[2]} allocate r }}\n'
+            a, b = dates(run(base)), dates(run(text))
+            evals += 1
+            record(("mixed", k), text)
+            for f, v in a.items():
+                if b[f] != v:
+                    fails.append({"clause": "C09:intruder-moved-task", "key": f"C09/mixed/{SEED}/{k}", "detail": f"{f}: {v} -> {b[f]}", "input": text})
+                    break
     elif prop == "C12":
         for k, p in enumerate(gen_projects(rng, n // 2)):
             text = render(p)
@@ -751,6 +846,33 @@ def main():
             record(k, text)
             if not (a == b == c):
                 fails.append({"clause": "C12:same-input-same-output", "key": f"C12/{SEED}/{k}", "detail": "repeat / after other project / second schedule() differ", "input": text})
+        # second sub-universe: the same text in fresh interpreters with different hash seeds (set / dict iteration order)
+        import subprocess
+        texts = []
+        for k in range(3 if TIER == "quick" else 8):
+            e = [rng.choice([3, 5, 8]) for _ in range(4)]
+            texts.append('project prj "P" 2025-01-06 +3w { timezone "UTC" }\n'
+                         'resource pri "pri" { vacation 2025-01-06 - 2025-01-20 }\nresource alfa "alfa" {}\nresource bravo "bravo" {}\nresource zulu "zulu" {}\n'
+                         f'task routed "routed" {{ effort {e[0]}h allocate pri {{ alternative zulu, alfa, bravo }} }}\n'
+                         f'task f1 "f1" {{ effort {e[1]}h allocate alfa }}\ntask f2 "f2" {{ effort {e[2]}h allocate bravo }}\ntask f3 "f3" {{ effort {e[3]}h allocate zulu }}\n')
+        code = ("import sys, io, json, contextlib; sys.path.insert(0, %r)\n"
+                "from scriptplan.parser.tjp_parser import ProjectFileParser\n"
+                "out = []\n"
+                "for t in json.loads(sys.stdin.read()):\n"
+                "    with contextlib.redirect_stdout(io.StringIO()), contextlib.redirect_stderr(io.StringIO()):\n"
+                "        p = ProjectFileParser().parse(t)\n"
+                "    out.append(sorted((x.fullId, str(x.get('start', 0)), str(x.get('end', 0))) for x in p.tasks))\n"
+                "print(json.dumps(out))\n") % ROOT
+        results = {}
+        for hs in ("0", "1", "2", "3", "4", "5") if TIER == "quick" else [str(i) for i in range(16)]:
+            pr = subprocess.run([sys.executable, "-c", code], input=json.dumps(texts), capture_output=True, text=True,
+                                env=dict(os.environ, PYTHONHASHSEED=hs), timeout=600)
+            results[hs] = pr.stdout.strip().splitlines()[-1] if pr.stdout.strip() else "ERR " + pr.stderr[-200:]
+            evals += len(texts)
+        record("hashseed", texts[0])
+        if len(set(results.values())) != 1:
+            fails.append({"clause": "C12:hash-seed", "key": f"C12/hashseed/{SEED}", "input": texts[0],
+                          "detail": f"{len(set(results.values()))} different results over PYTHONHASHSEED {sorted(results)}"})
     elif prop == "C13":
         import scriptplan.scheduler.scoreboard as M1
         import scriptplan.core.working_hours as M2
@@ -794,6 +916,28 @@ def main():
             record(("night", k), text)
             if a != b or la != lb:
                 fails.append({"clause": "C13:project-differs", "key": f"C13/night/{SEED}/{k}", "detail": f"extensions on {a} vs off {b}"[:300], "input": text})
+        # third sub-universe: dates before the project start and off the slot grid (date -> slot conversion of both paths)
+        for k in range(n // 6):
+            st_ = rng.choice(["2025-01-05-23:30", "2025-01-05-15:40", "2025-01-06-00:00", "2025-01-04-10:10"])
+            lv = rng.choice(["", " leaves annual 2025-01-05-15:30 - 2025-01-07", " vacation 2025-01-03-22:45 - 2025-01-08"])
+            text = ('project prj "P" 2025-01-06 +2w { timezone "UTC" }\n'
+                    f'resource r "r" {{{lv} }}\n'
+                    f'task a "a" {{ effort {rng.choice([5, 12])}h allocate r start {st_} }}\n'
+                    'task b "b" { effort 4h allocate r scheduling alap }\n')
+            res = []
+            try:
+                for flag in (True, False):
+                    M1._USE_CYTHON = M2._USE_CYTHON = M3._USE_CYTHON = flag
+                    try:
+                        res.append((dates(run(text)), ledger(run(text))))
+                    except Exception as e:  # noqa
+                        res.append(("raise", type(e).__name__))
+            finally:
+                M1._USE_CYTHON, M2._USE_CYTHON, M3._USE_CYTHON = orig
+            evals += 1
+            record(("early", k), text)
+            if res[0] != res[1]:
+                fails.append({"clause": "C13:project-differs", "key": f"C13/early/{SEED}/{k}", "detail": f"extensions on {str(res[0])[:150]} vs off {str(res[1])[:150]}", "input": text})
     elif prop == "C14":
         for k, p in enumerate(gen_projects(rng, n // 2)):
             # one task gets a pinned start, the project a global vacation day: both move with the project
@@ -814,6 +958,11 @@ def main():
                     v1 = (pp["start"] + dt.timedelta(days=vac_days + 1)).strftime("%Y-%m-%d")
                     t_ = t_.replace("\nresource ", f'\nvacation "hol" {v0} - {v1}\nresource ', 1)
                 return t_
+            if k % 3 == 0:
+                p = dict(p, start=dt.datetime(2024, 12, 23))      # crosses 2024-12-31 / 2025-01-01 (end of a leap year)
+                for r_ in p["res"]:
+                    r_["dailymax"] = r_["dailymax"] or 4
+                    r_["leave"] = None
             base = dates(run(with_dates(p)))
             w = rng.choice([1, 4, 51, 52, 53, 104, 157])
             q = dict(p, start=p["start"] + dt.timedelta(weeks=w))
@@ -885,6 +1034,25 @@ def main():
                     if a[f"{pre}.test"][0] < a[f"{pre}.compile"][1] or a[f"{ph}.ship"][0] < a[f"{pre}.test"][1]:
                         fails.append({"clause": "C15:edge-not-honoured", "key": f"C15/nest/{SEED}/{k}", "detail": f"{ph}: {a}"[:300], "input": ta})
                         break
+        # third sub-universe: an allocation with tied alternatives under consistent renamings of the resources (the choice
+        # must depend on the declaration order, not on how the resources are called)
+        for k in range(n // 6):
+            e = [rng.choice([3, 5, 8]) for _ in range(3)]
+
+            def txt(names):
+                p_, a1, a2 = names
+                return ('project prj "P" 2025-01-06 +3w { timezone "UTC" }\n'
+                        f'resource {p_} "p" {{ vacation 2025-01-06 - 2025-01-20 }}\nresource {a1} "a1" {{}}\nresource {a2} "a2" {{}}\n'
+                        f'task routed "routed" {{ effort {e[0]}h allocate {p_} {{ alternative {a1}, {a2} }} }}\n'
+                        f'task f1 "f1" {{ effort {e[1]}h allocate {a1} }}\ntask f2 "f2" {{ effort {e[2]}h allocate {a2} }}\n')
+            base = dates(run(txt(("pri", "alt1", "alt2"))))
+            evals += 1
+            record(("alt", k), txt(("pri", "alt1", "alt2")))
+            for names in (("pri", "zed", "amy"), ("x9", "qa_x", "dev_x"), ("m", "b", "a")):
+                if dates(run(txt(names))) != base:
+                    fails.append({"clause": "C15:rename-resources", "key": f"C15/alt/{SEED}/{k}", "input": txt(names),
+                                  "detail": f"renaming the resources to {names} changes the dates"})
+                    break
     elif prop == "C16":
         for k, p in enumerate(gen_projects(rng, n // 2)):
             one = dates(run(render(p)))
